@@ -365,6 +365,8 @@ def failOnErr : S → S
   | .fillMapS l o cl b k => .fillMapS l o cl b (failOnErr k)
   | .pollMapS l o cl k => .pollMapS l o cl (failOnErr k)
   | .callM2 a b k => .callM2 a b (failOnErr k)
+  | .seqFill b k => .seqFill b (failOnErr k)
+  | .probeS k => .probeS (failOnErr k)
   | .fillZipMapS l a b cl bd k => .fillZipMapS l a b cl bd (failOnErr k)
   | .pollZipMapS l a b cl k => .pollZipMapS l a b cl (failOnErr k)
   | .allocS k => .allocS (failOnErr k)
@@ -401,6 +403,8 @@ def resultLeaves : S → Bool
   | .fillMapS _ _ _ _ k => resultLeaves k
   | .pollMapS _ _ _ k => resultLeaves k
   | .callM2 _ _ k => resultLeaves k
+  | .seqFill _ _ => false
+  | .probeS _ => false
   | .fillZipMapS _ _ _ _ _ k => resultLeaves k
   | .pollZipMapS _ _ _ _ k => resultLeaves k
   | .allocS k => resultLeaves k
@@ -605,6 +609,8 @@ theorem exec_failOnErr (c : Ctx) (hb : c.bad = none) : ∀ (s : S) (env : List V
       | panicked => rfl
       | ub => rfl
     · exact ih _ _ h
+  | seqFill b k _ _ => intro env st h; simp [resultLeaves] at h
+  | probeS k _ => intro env st h; simp [resultLeaves] at h
   | callM2 a b k ih =>
     intro env st h
     simp only [failOnErr, exec]
